@@ -198,6 +198,12 @@ structure Ctx where
   snapshot : List String := []
   /-- `block.nrexcl = int(nrexcl)` -/
   nrexcl : Option Int := none
+  /-- `link.non_edges`: (key of the first atom, attributes of the second atom) per `[ non-edges ]` line -/
+  nonEdges : List (String × Attrs) := []
+  /-- `link.patterns`: per `[ patterns ]` line its atoms (reference as written, attributes) -/
+  patterns : List (List (String × Attrs)) := []
+  /-- `link.features` (a set; kept without duplicates) -/
+  features : List String := []
   deriving Repr, Inhabited
 
 def Ctx.hasNode (c : Ctx) (k : String) : Bool := c.nodes.any (fun n => n.1 = k)
@@ -352,6 +358,12 @@ def linkAtomLine (defaults : Attrs) (line : String) (c : Ctx) : Option Ctx := do
     else pure (c.setNode k (attrsUpdate (attrsUpdate defaults old) attrs2))
   | _ => none
 
+/-- the entry a `[ non-edges ]` line appends to `link.non_edges`: the key of the first atom and
+`dict(ChainMap(attributes of the second atom, link._apply_to_all_nodes))` - the link-wide attributes,
+overridden by what the line itself says about the atom -/
+def nonEdgeOf (c : Ctx) (k0 : String) (secondAttrs : Attrs) : String × Attrs :=
+  (k0, attrsUpdate c.allNodes secondAttrs)
+
 /-- `_parse_edges` -/
 def edgeLine (kind : Kind) (negate : Bool) (line : String) (c : Ctx) : Option Ctx := do
   let toks ← tokenizeS line
@@ -360,7 +372,13 @@ def edgeLine (kind : Kind) (negate : Bool) (line : String) (c : Ctx) : Option Ct
   let keys ← atoms.mapM fun (r, a) => (treatAtomPrefix r.toList a).map fun x => String.ofList x.1
   match keys with
   | [k0, k1] =>
-    if negate then pure c
+    if negate then
+      -- `non_edges.append([key of the first atom, dict(ChainMap(attributes of the second, _apply_to_all_nodes))])`
+      match atoms with
+      | [_, (r1, a1)] =>
+        (treatAtomPrefix r1.toList a1).map fun x =>
+          { c with nonEdges := c.nonEdges ++ [nonEdgeOf c k0 x.2] }
+      | _ => none
     else if (kind = .modification || kind = .block) && !(c.hasNode k0 && c.hasNode k1) then none
     else
       let c1 := if c.hasNode k0 then c else c.setNode k0 []
@@ -418,10 +436,11 @@ def ffHandle (natomsTab : List (String × Nat)) (tab : List Entry) (kind : Kind)
     else if e.method = "_link_patterns" then
       (if kind != .link then none else do
         let toks ← tokenizeS line
-        let _ ← atomsWithAttrs none false toks
-        pure c)
+        let (atoms, _) ← atomsWithAttrs none false toks
+        pure { c with patterns := c.patterns ++ [atoms] })
     else if e.method = "_link_features" then
-      (if kind != .link then none else (tokenizeS line).map fun _ => c)
+      (if kind != .link then none else (tokenizeS line).map fun toks =>
+        { c with features := (c.features ++ toks).eraseDups })
     else some c      -- citation, log entries, block meta: never raise
 
 /-- context-free sections: `_variables` (before any context), `_macros` (done by the
